@@ -51,8 +51,11 @@ class Gen(object):
         self.msg_apis = cfg.get("msg_apis", list(range(len(MSG_APIS))))
         self.exc = cfg.get("exc", DEFAULT_EXC)
         self.spawn_kinds = cfg.get("spawn_kinds", [])
-        # weights: msg, act, tb, succ, raise, pause, spawn
-        self.w = cfg.get("w_ops", [6, 6, 1, 2, 1, 0, 0])
+        # weights: msg, act, tb, succ, raise, pause, spawn, reenter, plain_gen
+        self.w = list(cfg.get("w_ops", [6, 6, 1, 2, 1, 0, 0])) + [0, 0]
+        self.w = self.w[:9]
+        self.w[7] = cfg.get("w_reenter", 0)
+        self.w[8] = cfg.get("w_plain_gen", 0)
         self.p_more = cfg.get("p_more", 0.75)
         self.p_catch = cfg.get("p_catch", 0.5)
         self.world = cfg.get("world", "seq")
@@ -76,6 +79,9 @@ class Gen(object):
                 w[6] = 0
             if not in_action:
                 w[3] = 0
+                w[7] = 0
+            if depth >= self.max_depth:
+                w[7] = 0
             if nopause and self.world == "async":
                 w[5] = 0
                 w[6] = 0
@@ -95,7 +101,22 @@ class Gen(object):
                 ops.append({"op": "pause", "d": st.choose(4, "delay")})
             elif k == 6:
                 ops.append(self.spawn(depth))
+            elif k == 7:
+                how = "run" if st.choose(2, "rehow") else "context"
+                ops.append({"op": "reenter", "how": how,
+                            "body": self.body(depth + 1, nopause or how == "run", in_action=True)})
+            elif k == 8:
+                ops.append({"op": "plain_gen", "nid": self.next_nid(),
+                            "atype": st.pick(ACTION_TYPES, "atype"),
+                            "how": ["close", "exhaust", "throw"][st.choose(3, "genhow")],
+                            "inside": [self.plain_msg() for _ in range(st.choose(3))],
+                            "suspended": [self.plain_msg() for _ in range(st.choose(3))],
+                            "after": [self.plain_msg() for _ in range(st.choose(2))]})
         return ops
+
+    def plain_msg(self):
+        return {"op": "msg", "nid": self.next_nid(), "api": "log_message",
+                "mtype": self.st.pick(MESSAGE_TYPES, "mtype"), "fields": self.fields()}
 
     def msg(self):
         st = self.st
@@ -201,6 +222,6 @@ def shape_hash(prog):
     import hashlib
 
     def sh(ops):
-        return [(op["op"], op.get("api"), op.get("style"), op.get("kind"), op.get("cls"),
-                 bool(op.get("catch")), sh(op["body"]) if "body" in op else None) for op in ops]
+        return [(op["op"], op.get("api"), op.get("style"), op.get("kind"), op.get("cls"), op.get("how"),
+                 bool(op.get("catch")), "cancel" in op, sh(op["body"]) if "body" in op else None) for op in ops]
     return hashlib.blake2b(repr([sh(a) for a in prog["actors"]]).encode(), digest_size=6).hexdigest()
